@@ -124,6 +124,8 @@ def check_view(ck, view, tag=""):
             continue
         found = True
         k2 = P.const_of(k)
+        if P.norm(b["comp"]) == inp or P.match(comp_pat, b["in"]):
+            b["in"], b["comp"] = b["comp"], b["in"]   # mul is commutative: mul(10000 - fee, input) is the same product
         okops = (P.norm(b["in"]) == inp and {P.norm(b["o1"]), P.norm(b["o2"])} == {o1, o2})
         ck.require(okops, "TERM", tag + "fee-inequality/operands",
                    "inequality operands are (input_amount; output_amount_1 + output_amount_2)", e.loc,
